@@ -285,6 +285,15 @@ def run(tier):
               'emit every node exactly once, completely and in order '
               '(shared with C07.R1-R4): the output file has the token '
               'sequence of the accepted candidate', sub7)
+    # between the check and the write the adopted list only passes through
+    # reduplicate, which must not change a token (shared with C13)
+    from . import c13
+    sub13 = Check('C13', 'other', tier, [], [])
+    chk.guard(c13.rule_r234, sub13, prog)
+    chk.adopt('C01.R7', 're-duplication between acceptance and write is '
+              'token-preserving: rebuilt nodes are made of the original '
+              'text / the rebuilt children only (shared with C13.R2-R4)',
+              sub13)
     extra = None
     if tier == 'thorough':
         from .. import selftest
